@@ -5,6 +5,8 @@
 import Proofs.C05_Lemmas
 import Proofs.C05_Hist
 import Proofs.C05_Source
+import Proofs.C05_Clean
+import Proofs.C05_Heap
 import Mathlib.Analysis.Real.Sqrt
 import Mathlib.Analysis.SpecialFunctions.Trigonometric.Inverse
 import Mathlib.Data.Rat.Floor
@@ -663,6 +665,70 @@ theorem hist_normalize_full (P : Params K) (ht0 : 0 ≤ P.tiny) (ht1 : P.tiny < 
     rw [hpb, wrap_box_full]
     exact hc2 b2 hb
 
+/-! ### the remaining clean-up hypotheses `hclean` / `hc2`: exactly when they hold, and when they are discharged -/
+
+/-- **hclean_iff**: the hypothesis `hclean` of `hist_wrap_inside` holds exactly when every component of the cell `wrap`
+    installs (the old cell with its non-periodic vectors lengthened) is zero or exceeds `tiny` times the largest one. -/
+theorem hclean_iff (P : Params K) (c : CSys K) :
+    zeroSmall P.tiny (wrap P.fl P.pad c.box c.pbc c.pos).box.vects = (wrap P.fl P.pad c.box c.pbc c.pos).box.vects ↔
+    ∀ x ∈ (wrap P.fl P.pad c.box c.pbc c.pos).box.vects.toList,
+      x = 0 ∨ P.tiny * maxAbs (wrap P.fl P.pad c.box c.pbc c.pos).box.vects < |x| :=
+  zeroSmall_eq_self_iff _ _
+
+/-- **wrap_clean_of_margin**: `hclean` in terms of the cell BEFORE the wrap: if no direction is lengthened by more than
+    the factor `kmax` (`maxs[i] - mins[i] ≤ kmax`, e.g. the atoms stick out by at most `kmax - 1` cells) and every
+    non-zero component of the old cell exceeds `tiny · kmax` times its largest component, the clean-up of the setter does
+    not alter the lengthened cell (with `tiny = 1e-9`: components above `1e-6` of the largest and `kmax ≤ 1000`). -/
+theorem wrap_clean_of_margin (fl : K → Int) (pad tiny : K) (hpad : 0 < pad) (ht : 0 ≤ tiny) (b : Box K) (pbc : V3 Bool)
+    (pos : List (V3 K)) (kmax : K)
+    (hk : let bd := bounds pad pbc (pos.map b.cartToRel)
+      bd.x.2 - bd.x.1 ≤ kmax ∧ bd.y.2 - bd.y.1 ≤ kmax ∧ bd.z.2 - bd.z.1 ≤ kmax)
+    (hmargin : ∀ x ∈ b.vects.toList, x = 0 ∨ tiny * kmax * maxAbs b.vects < |x|) :
+    zeroSmall tiny (wrap fl pad b pbc pos).box.vects = (wrap fl pad b pbc pos).box.vects := by
+  obtain ⟨wx, wy, wz⟩ := bounds_width pad hpad pbc (pos.map b.cartToRel)
+  obtain ⟨kx, ky, kz⟩ := hk
+  exact zeroSmall_stretched tiny ht b.vects _ _ _ kmax wx wy wz kx ky kz hmargin
+
+/-- **hist_wrap_inside_margin**: `hist_wrap_inside` with `hclean` discharged by the margin condition: at any point of
+    any history, a `wrap` of a system with ANY periodicity leaves every atom inside the cell the object then has, provided
+    the cell it had before has no component within `tiny · kmax` of zero (relative to its largest) and no direction needs
+    to be lengthened by more than `kmax`. -/
+theorem hist_wrap_inside_margin (P : Params K) (hfl : IsFloor P.fl) (hpad : 0 < P.pad) (ht : 0 ≤ P.tiny)
+    (ops : List (Op K)) (c0 : CSys K) (h0 : Coherent c0) (hdet : M3.det (runC P c0 ops).1.box.vects ≠ 0) (kmax : K)
+    (hk : let c := (runC P c0 ops).1
+      let bd := bounds P.pad c.pbc (c.pos.map c.box.cartToRel)
+      bd.x.2 - bd.x.1 ≤ kmax ∧ bd.y.2 - bd.y.1 ≤ kmax ∧ bd.z.2 - bd.z.1 ≤ kmax)
+    (hmargin : let c := (runC P c0 ops).1
+      ∀ x ∈ c.box.vects.toList, x = 0 ∨ P.tiny * kmax * maxAbs c.box.vects < |x|) :
+    let c := (runC P c0 ops).1
+    let w := c.wrapC P
+    ∀ p' ∈ w.2.pos, insideRel (w.2.box.cartToRel p') :=
+  hist_wrap_inside P hfl hpad ops c0 h0 hdet
+    (wrap_clean_of_margin P.fl P.pad P.tiny hpad ht _ _ _ kmax hk hmargin)
+
+/-- **hc2_iff**: the hypothesis `hc2` of `hist_normalize_full` / `api_normalize_never_refuses` holds exactly when every
+    component of the rebuilt LAMMPS cell (three edge lengths along the axes, three tilt factors, three structural zeros)
+    is zero or exceeds `tiny` times the largest one (`clean_lammps_iff` gives the same in the six parameters). -/
+theorem hc2_iff (P : Params K) (s : Sys K) :
+    (∀ b2, abcBox? P.sqrt (flip s.box).vects = some b2 → zeroSmall P.tiny b2.vects = b2.vects) ↔
+    (∀ b2, abcBox? P.sqrt (flip s.box).vects = some b2 →
+      ∀ x ∈ b2.vects.toList, x = 0 ∨ P.tiny * maxAbs b2.vects < |x|) := by
+  constructor
+  · intro h b2 hb; exact (zeroSmall_eq_self_iff _ _).mp (h b2 hb)
+  · intro h b2 hb; exact (zeroSmall_eq_self_iff _ _).mpr (h b2 hb)
+
+/-- **hist_normalize_full_explicit**: `hist_normalize_full` with the clean-up hypothesis spelled out on the numbers of
+    the rebuilt cell. -/
+theorem hist_normalize_full_explicit (P : Params K) (ht0 : 0 ≤ P.tiny) (ht1 : P.tiny < 1)
+    (ops : List (Op K)) (c0 : CSys K) (h0 : Coherent c0) (hc0 : Clean P.tiny c0)
+    (hp : (runC P c0 ops).1.pbc = ⟨true, true, true⟩)
+    (hc2 : let s := (runC P c0 ops).1.erase
+      ∀ b2, abcBox? P.sqrt (flip s.box).vects = some b2 →
+        ∀ x ∈ b2.vects.toList, x = 0 ∨ P.tiny * maxAbs b2.vects < |x|) :
+    let c := (runC P c0 ops).1
+    c.normalizeC P = normalize? P.fl P.pad P.sqrt c.box c.pbc c.pos ∧ (stepC P c .normalize).1 = c :=
+  hist_normalize_full P ht0 ht1 ops c0 h0 hc0 hp ((hc2_iff P _).mpr hc2)
+
 /-- lengths, cosines and angles are functions of the Gram matrix alone — whatever `sqrt` and `arccos` are. -/
 theorem lengths_angles_of_gram (sqrt arccos : K → K) (v w : M3 K) (h : gram w = gram v) :
     lenA sqrt w = lenA sqrt v ∧ lenB sqrt w = lenB sqrt v ∧ lenC sqrt w = lenC sqrt v ∧
@@ -1214,6 +1280,17 @@ example :
 example :
     zeroSmall (1/1000000000 : ℚ) ⟨⟨4, 0, 0⟩, ⟨1/250000000, 4, 0⟩, ⟨0, 0, 4⟩⟩ ≠ ⟨⟨4, 0, 0⟩, ⟨1/250000000, 4, 0⟩, ⟨0, 0, 4⟩⟩ ∧
     zeroSmall (1/1000000000 : ℚ) ⟨⟨4, 0, 0⟩, ⟨1/125000000, 4, 0⟩, ⟨0, 0, 4⟩⟩ = ⟨⟨4, 0, 0⟩, ⟨1/125000000, 4, 0⟩, ⟨0, 0, 4⟩⟩ := by
+  decide +kernel
+
+-- wrap_clean_of_margin / hist_wrap_inside_margin: a partially periodic system whose atom sticks out 1.25 cells along the
+-- non-periodic direction; both hypotheses hold with kmax = 3 and tiny = 1e-9 (and the conclusion is not trivial: the cell grew)
+example : let b : Box ℚ := ⟨⟨⟨3, 0, 0⟩, ⟨1/1000, 4, 0⟩, ⟨0, 0, 5⟩⟩, ⟨0, 0, 0⟩⟩
+    let pbc : V3 Bool := ⟨true, false, true⟩
+    let pos : List (V3 ℚ) := [⟨1, 9, 1⟩, ⟨-2, 1, 7⟩]
+    let bd := bounds (1/1000) pbc (pos.map b.cartToRel)
+    (bd.x.2 - bd.x.1 ≤ 3 ∧ bd.y.2 - bd.y.1 ≤ 3 ∧ bd.z.2 - bd.z.1 ≤ 3) ∧
+    (∀ x ∈ b.vects.toList, x = 0 ∨ (1/1000000000 : ℚ) * 3 * maxAbs b.vects < |x|) ∧
+    (wrap Rat.floor (1/1000) b pbc pos).box.vects ≠ b.vects := by
   decide +kernel
 
 end Atomman.C05
